@@ -52,7 +52,7 @@ theorem step_walk : (s : Stmt) → (st : St) → Step st (walk st s)
       · exact Step.trans (step_visitOpt _ filter) (step_trackAssign _ target)
   | .macro name args defaults body, st => by
       simp only [walk]
-      refine Step.trans (step_assign st name) ?_
+      refine Step.trans ?_ (step_assign _ name)
       apply step_of_scope
       exact Step.trans (Step.trans (step_assign _ "caller") (step_macroArgs _ _ _))
         (step_walkList body _)
@@ -68,6 +68,12 @@ theorem step_walk : (s : Stmt) → (st : St) → Step st (walk st s)
   | .block _ body, st => by
       simp only [walk]
       exact step_block (step_walkList body _)
+  | .include name, st => by simp only [walk]; exact step_visitExpr st name
+  | .extends name, st => by simp only [walk]; exact step_visitExpr st name
+  | .importAs e target, st => by
+      simp only [walk]; exact Step.trans (step_visitExpr st e) (step_trackAssign _ target)
+  | .fromImport e targets, st => by
+      simp only [walk]; exact Step.trans (step_visitExpr st e) (step_trackTargets _ targets)
 theorem step_walkList : (ss : List Stmt) → (st : St) → Step st (walkList st ss)
   | [], st => by simp only [walkList]; exact Step.refl st
   | s :: ss, st => by
